@@ -166,6 +166,7 @@ def run_one(c, w, p):
     else:
         req = {"command": "updateAncestorBlock", "version": 5,
                "blocks": [enc(b).hex() for b in c["blocks"]]}
+    mark = len(w.log)
     rep = mw.request(p, req)
     mw.check_sim(w)
     labels = [c["kind"]]
@@ -177,6 +178,12 @@ def run_one(c, w, p):
     else:
         total = c["final"] == "total" or not adv
     exp_code = 0 if total else 1
+    if adv and rep == {"errorcode": -205} and len(w.adv_rx) == n_rx and not w.apdus(mark):
+        # refused before the device heard of it: that is open to the manager for brother lists
+        # the documentation rules out (more than 10 brothers, the same brother twice)
+        encs = [[enc(b) for b in bl] for bl in c["bros"]]
+        if any(len(bl) > 10 or len(set(bl)) != len(bl) for bl in encs):
+            return Out(labels + ["refused-undocumented-brother-list"], False)
     if rep != {"errorcode": exp_code}:
         raise Violation("reply-vs-device-result", "device reported %s success, reply %r" % (
             "total" if total else "partial", rep))
